@@ -376,6 +376,8 @@ def run(chk):
     from . import guardrules as _gr
     nd2_ = _gr.check_decisions(chk, c, 'C05-D2', lambda fq_: fq_.startswith(('core.SupportComplexDataType.', 'core.CanBeVaries.', 'core.SubComponent.', 'core.Component.')))
     chk.floor('functions compared with the decision reference (C05-D2)', nd2_, 1)
+    from . import memo as _memo
+    _memo.wire(chk, c, 'C05-M', lambda fi: fi.module.name.split('.')[-1] in ('factories', 'base_datatypes', 'utils', 'validation'), 'the datatype modules (factories, base datatypes) and the validator')
 
 
 
